@@ -4,7 +4,10 @@ import (
 	"fmt"
 	"strings"
 
+	"github.com/pip-services3-gox/pip-services3-expressions-gox/calculator"
 	"github.com/pip-services3-gox/pip-services3-expressions-gox/calculator/parsers"
+	ctok "github.com/pip-services3-gox/pip-services3-expressions-gox/calculator/tokenizers"
+	"github.com/pip-services3-gox/pip-services3-expressions-gox/tokenizers"
 
 	"verifharness/model"
 	"verifharness/mon"
@@ -84,6 +87,14 @@ func c02Exec(c *mon.Case) {
 		c.Count("rejected-non-sentences")
 		c.Mark("error-codes", errCode(err))
 	}
+}
+
+func toksOf(ts []*tokenizers.Token) string {
+	var b strings.Builder
+	for _, t := range ts {
+		b.WriteString(tok{t.Type(), t.Value(), t.Line(), t.Column()}.String() + " ")
+	}
+	return b.String()
 }
 
 func buildC02(cfg *mon.Config) []*mon.Sub {
@@ -166,5 +177,72 @@ func buildC02(cfg *mon.Config) []*mon.Sub {
 		},
 		Exec: c02Exec,
 	}
-	return []*mon.Sub{exhFull, exhCore, mut}
+	tokapi := &mon.Sub{
+		Name: "token-api", Rule: "seeded valid and mutated expressions (random spacing and comments) are tokenized by a real expression tokenizer (whitespace tokens kept, comments and end marker skipped, strings decoded) and given to ParseTokens; the verdict and the compiled program must equal those of ParseString on the text, also when the same token slice is compiled a second time, when it is then handed to a calculator's SetOriginalTokens, and the caller's slice must be left untouched; distinct by hash",
+		Floor: 500,
+		Gen: func(emit func(string)) {
+			r := cfg.Rng("c02-tokapi")
+			g := &exprGen{r: r}
+			for i := 0; i < cfg.N(4000, 200000); i++ {
+				t := g.typed(1+r.Intn(4), mon.Pick(r, []string{"int", "bool", "str"}))
+				src := printings(t, r.Next()%100000)[2]
+				if i%4 == 0 {
+					src = mutateChars(r, src, 1+r.Intn(2))
+				}
+				emit(src)
+			}
+		},
+		Exec: func(c *mon.Case) {
+			src := c.Payload
+			ref := parsers.NewExpressionParser()
+			var refErr error
+			if pn := mon.Try(func() { refErr = ref.ParseString(src) }); pn != nil {
+				c.Count("ParseString panicked (C03)")
+				return
+			}
+			want := fmt.Sprintf("%s %v", errCode(refErr), gotProgram(ref.ResultTokens()))
+			if refErr != nil {
+				want = errCode(refErr)
+			}
+			tk := ctok.NewExpressionTokenizer()
+			setOptions(tk, optSkipComments|optSkipEof|optDecodeStrings)
+			toks := tk.TokenizeBuffer(strings.Trim(src, " \t\r\n"))
+			snapshot := toksOf(toks)
+			obs := func(err error, p *parsers.ExpressionParser) string {
+				if err != nil {
+					return errCode(err)
+				}
+				return fmt.Sprintf("%s %v", errCode(err), gotProgram(p.ResultTokens()))
+			}
+			p := parsers.NewExpressionParser()
+			for pass := 1; pass <= 2; pass++ {
+				var err error
+				if pn := mon.Try(func() { err = p.ParseTokens(toks) }); pn != nil {
+					c.FailPanic("ParseTokens", pn)
+					return
+				}
+				if got := obs(err, p); got != want {
+					c.Failf("ParseTokens differs from ParseString on the same expression"+map[int]string{1: "", 2: " (second compilation of the same token list)"}[pass], "source=%q\nParseString: %s\nParseTokens: %s", src, want, got)
+					return
+				}
+				if toksOf(toks) != snapshot {
+					c.Failf("ParseTokens modified the caller's token list", "source=%q\nbefore %s\nafter  %s", src, snapshot, toksOf(toks))
+					return
+				}
+			}
+			calc := calculator.NewExpressionCalculator()
+			if pn := mon.Try(func() { calc.SetOriginalTokens(toks) }); pn != nil {
+				c.FailPanic("SetOriginalTokens", pn)
+				return
+			}
+			if refErr == nil {
+				if got := fmt.Sprintf(" %v", gotProgram(calc.ResultTokens())); got != want {
+					c.Failf("SetOriginalTokens differs from SetExpression on the same expression", "source=%q\nwant %s\ngot  %s", src, want, got)
+					return
+				}
+			}
+			c.NonTrivial()
+		},
+	}
+	return []*mon.Sub{exhFull, exhCore, mut, tokapi}
 }
